@@ -313,7 +313,8 @@ def cgTable (j1 j2 j : Nat) : List (Int × Rat) :=
 /-! exact orthogonality test for the CG table: every coefficient is `s·√r` (`s ∈ {0,±1}`, `r ≥ 0` rational), a product of two is
 `s s'·√(r r')`; write `√(p/q) = (t/q)·√f` with `p q = t² f`, `f` square-free, and add the rational coefficients `s s' t/q` per `f`. -/
 
-/-- `(t, f)` with `N = t²·f`, `f` square-free (trial division; `fuel` bounds the number of steps) -/
+/-- `(t', f)` with `t'²·f = t²·N` (`C15.sqfreeGo_spec`, every fuel); trial division, so `f` is square-free whenever `fuel` covers all
+divisors up to `√N` — only `N = t²·f` is used for soundness -/
 def sqfreeGo : Nat → Nat → Nat → Nat → Nat × Nat
   | 0, _, N, t => (t, N)
   | fuel + 1, d, N, t =>
@@ -323,7 +324,7 @@ def sqfreeGo : Nat → Nat → Nat → Nat → Nat × Nat
 
 def sqfreeDecomp (N : Nat) : Nat × Nat := if N = 0 then (0, 1) else sqfreeGo (N + 64) 2 N 1
 
-/-- `s·√r` as `(c, f)` meaning `c·√f`, `f` square-free -/
+/-- `s·√r` as `(c, f)` meaning `c·√f` (`r.num·r.den = t²·f` by `sqfreeDecomp`, `c = s·t/r.den`) -/
 def surdNormal (s : Int) (r : Rat) : Rat × Nat :=
   let (t, f) := sqfreeDecomp (r.num.toNat * r.den)
   ((s : Rat) * (t : Rat) / (r.den : Rat), f)
